@@ -26,7 +26,8 @@ LISTS = {
         "filter*": lambda f: f["name"] in ("filter", "filter_map") and "Iterator" in f.get("trait", "") + f["def"],
         "nth": lambda f: f["name"] in ("nth", "nth_back"),
         "last": lambda f: f["name"] == "last" and "Iterator" in f.get("trait", "") + f["def"],
-        "truncate": lambda f: f["name"] == "truncate",
+        # (a byte buffer is not a collection of inputs or documents: shortening a Vec<u8> is buffer management)
+        "truncate": lambda f: f["name"] == "truncate" and not (f["def"].startswith("std::vec::Vec") and f.get("args", [])[:1] == ["u8"]),
     },
     "slurp": {
         "read_to_end": lambda f: f["name"] == "read_to_end",
